@@ -114,7 +114,8 @@ Proof.
                           (c_tail c ++ e)).
   { unfold timing_line, timing_text. rewrite !print_clock_text. repeat rewrite <- app_assoc. reflexivity. }
   rewrite E. rewrite search_tc_spec; auto using clock_digits_print, spaces_of_blanks.
-  cbn [g_bh g_bm g_bs g_bms g_eh g_em g_es g_ems]. rewrite !clock_value by auto. reflexivity.
+  cbn [g_bh g_bm g_bs g_bms g_eh g_em g_es g_ems]. rewrite !hours_convert by auto. cbn [andb negb].
+  rewrite !clock_value by auto. reflexivity.
 Qed.
 
 Definition clean_lines (ls : list text) : Prop := Forall no_lf ls /\ Forall no_cr ls.
